@@ -164,12 +164,13 @@ PROPS = {
         "rule": "History pairs P.F.S / P'.F.S on two real detectors (every third case through the public MotionProcessor API): P, P' of equal length and telemetry but different pixels "
                 "(or, for resets, different lengths ending in >= 2 unaffected frames); F.S common, starting with an FFC-affected frame (fixed and dynamic threshold) or a reset (fixed threshold). "
                 "FFC events at random positions, irregular TimeOn steps (period lengths 1..90 frames), power-on and negative ages, back-to-back FFCs, gap {1,2,3,5,45}. "
+                "One case in 16 is a crafted dynamic-threshold pair in which only prefix A builds up per-pixel background weights and the scene warms slowly after the FFC. "
                 "Oracles: (a) no motion on an affected frame or the frame directly after one; (b) verdicts on F.S identical in both runs. Non-trivial = pair with motion after the period.",
         "assumptions": COMMON_ASSUME + ["FFC period = 10 s as in the property"],
         "level_text": "Online suppression assertion on telemetry vs callback plus a paired-history comparator deciding independence from pre-FFC / pre-reset content.",
         "level_note": "Frames inside the FFC period may legitimately serve as comparison frames afterwards; only frames from before it are excluded by the property.",
         "technique": "online assertion + paired-execution comparator",
-        "jobs": [{"pkg": "motion", "test": "TestVerif_C09", "shards": (16, 16), "timeout": (300, 2400), "require": ["history_pairs", "suppressed_window_frames", "motion_frames_after_period", "pairs_with_reset", "pairs_with_ffc"]}],
+        "jobs": [{"pkg": "motion", "test": "TestVerif_C09", "shards": (16, 16), "timeout": (300, 2400), "require": ["history_pairs", "suppressed_window_frames", "motion_frames_after_period", "pairs_with_reset", "pairs_with_ffc", "crafted_weight_pairs"]}],
     },
     "C10": {
         "title": "Only complete recordings ever bear the .cptv name; crashes leave no debris",
@@ -203,7 +204,7 @@ PROPS = {
         "level_text": "Offline differential checker: decode everything the daemon wrote and compare with a reference pipeline composed from models that the unit-tier checks validated against the real components.",
         "level_note": "go-cptv and go-config are pinned dependencies and part of the system under observation.",
         "technique": "offline differential checker (decoded output vs reference pipeline)",
-        "jobs": [{"pkg": "recorder-main", "test": "TestVerif_C11", "race": True, "shards": (16, 16), "timeout": (600, 3000), "require": ["connections", "frames_compared", "motion_files", "continuous_files", "mode_0_connections", "mode_1_connections", "mode_2_connections", "mode_3_connections", "throttle_resumed_files_checked", "predicted_motion_frames", "connections_after_a_reconnect"]}],
+        "jobs": [{"pkg": "recorder-main", "test": "TestVerif_C11", "race": True, "shards": (16, 16), "timeout": (600, 3000), "require": ["connections", "frames_compared", "motion_files", "continuous_files", "mode_0_connections", "mode_1_connections", "mode_2_connections", "mode_3_connections", "throttle_resumed_files_checked", "predicted_motion_frames", "connections_after_a_reconnect", "connections_with_a_test_recording"]}],
     },
     "C12": {
         "title": "Sinks see writes only inside start..stop; faults never crash the pipeline",
@@ -304,14 +305,14 @@ PROPS = {
         "level_note": "Throttling independence is structural here (the continuous sink is never wrapped); the pipeline job checks it through main.go's wiring.",
         "technique": "offline trace checker + paired-execution comparator on monitor sinks",
         "jobs": [{"pkg": "motion", "test": "TestVerif_C17", "shards": (16, 16), "timeout": (300, 2400), "require": ["continuous_files", "test_recordings_completed", "test_recordings_overlapping_motion_recording"]},
-                 {"pkg": "recorder-main", "test": "TestVerif_C17Pipe", "shards": (8, 16), "timeout": (300, 1800), "require": ["pipeline_runs", "pipeline_continuous_files", "pipeline_test_recordings", "pipeline_runs_after_a_reconnect"]}],
+                 {"pkg": "recorder-main", "test": "TestVerif_C17Pipe", "shards": (8, 16), "timeout": (300, 1800), "require": ["pipeline_runs", "pipeline_continuous_files", "pipeline_test_recordings", "pipeline_runs_after_a_reconnect", "pipeline_runs_with_low_disk"]}],
     },
     "C18": {
         "title": "thermal-writer stores every frame once, in order, in well-formed CPTR files",
         "level": "exploration",
         "rule": "Under -race: real thermal-writer handleConn(conn, conf, false) over net.Pipe with a fresh output directory per connection. Grid: frame sizes {5,16,1000,39040,655360} x frame counts {0,1,255,256,257,2000 (300 for the largest)} x "
                 "hook schedules {none, writer stalled until all 256 buffers are in flight, reader stalled, alternating, random us sleeps/Gosched}, connection closed between frames or in mid-frame, socket writes whole / 1 byte / random; "
-                "plus seeded random cases; GOMAXPROCS in {1,2,4,16}; thorough adds one 65 s trickle run across the real one-minute file rotation; a second job runs paced connections of 5-7 s against a build whose rotation constant is shortened to 2 s (generated copy of main.go differing in that constant only), so that frames before, across and after rotations and the final flush after a rotation are checked in every run. Frames are id-stamped PRNG blocks. "
+                "plus seeded random cases and pairs of connections where the camera reconnects while the first connection's writer goroutine is still stalled with a backlog; GOMAXPROCS in {1,2,4,16}; thorough adds one 65 s trickle run across the real one-minute file rotation; a second job runs paced connections of 5-7 s against a build whose rotation constant is shortened to 2 s (generated copy of main.go differing in that constant only), so that frames before, across and after rotations and the final flush after a rotation are checked in every run. Frames are id-stamped PRNG blocks. "
                 "Oracles: independent CPTR parser (magic, version 2, header fields T/E/B/Z/X/Y/C=0/D/I, then F sections with one length field, no trailing bytes); concatenated payloads == frames sent (count, order, bytes); partial last frame not stored; "
                 "event-log conservation at hooks (filled = written + in flight <= 256; at writer exit written == queued); handleConn and writer must finish; race detector. A connection is a case.",
         "assumptions": COMMON_ASSUME + ["writer() panics on I/O errors by design; disk-full behaviour is not in the property", "file names have 1 s resolution: one output directory per connection"],
@@ -319,7 +320,7 @@ PROPS = {
         "level_note": "Interleavings are sampled through hook-injected stalls and GOMAXPROCS variation, not enumerated.",
         "technique": "offline file checker + hook-based conservation monitor + Go race detector",
         "jobs": [{"pkg": "writer-main", "test": "TestVerif_C18", "race": True, "shards": (16, 16), "gomaxprocs": [1, 2, 4, 16], "timeout": (900, 3000), "hang_is_violation": True,
-                  "require": ["connections", "frames_verified", "buffers_recycled", "runs_reaching_256_in_flight"]},
+                  "require": ["connections", "frames_verified", "buffers_recycled", "runs_reaching_256_in_flight", "overlapping_connection_pairs"]},
                  {"pkg": "writer-main-fastrotate", "test": "TestVerif_C18Rotate", "race": True, "shards": (4, 8), "timeout": (600, 1800), "hang_is_violation": True,
                   "require": ["runs_crossing_file_rotation", "frames_verified"]}],
     },
